@@ -120,6 +120,7 @@ type Exec struct {
 	qcache       map[string]cacheEntry
 	auxVars      []*Term
 	constCache   map[*ssa.Const]Value
+	pools        map[*Cell][]Value
 	cacheHits    int
 }
 
